@@ -92,7 +92,7 @@ def describe_error(err, probe=None):
             "kind": "value",
             "constraint_path": str(c.constraint_path),
             "type": c.tpm_type.__name__,
-            "value": int(err.value),
+            "value": _int_or_none(err.value),
             "_valid_values": c.valid_values,
         }
     elif isinstance(err, E.SizeConstraintExceededError):
